@@ -770,11 +770,27 @@ def check_C19(tier):
     v = C.Verdict("C19")
     done = 0
     nd = 0
-    for r in C.tlc_records(tout):
+    trecs = C.tlc_records(tout)
+    # signatures of the disagreeing expressions (the life-cycle specification does not read expressions)
+    bad_ids = sorted({r["id"] for r in trecs if r["t"] == "DISAGREE"})
+    sigs = {}
+    if bad_ids:
+        spath = os.path.join(d, "lifecycle-sig-%d.ndjson" % os.getpid())
+        L.write_ndjson(spath, [{"id": i, "e": by_id[i]["e"]} for i in bad_ids])
+        try:
+            sout, sst = C.tlc("SigOf.tla", "SigOf.cfg", env={"OBS": spath}, timeout=1200)
+        finally:
+            os.remove(spath)
+        if not sst["ok"]:
+            raise C.ToolError("TLC did not complete on SigOf")
+        sigs = {r["id"]: r for r in C.tlc_records(sout) if r.get("t") == "SIG"}
+    for r in trecs:
         if r["t"] == "DONE":
             done += 1
         elif r["t"] == "DISAGREE":
             nd += 1
+            r["sig"] = {k: val for k, val in sigs.get(r["id"], {}).items() if k not in ("t", "id")}
+            r["sig"]["through_combinator"] = r["ev"].startswith("any_")
             v.disagree(r, "%r: after %s (step %d of route %d): %s" % (C.text(by_id[r["id"]]["e"]), r["ev"], r["step"], r["route"], r["what"]))
     if done != len(recs):
         raise C.ToolError("trace validation consumed %d of %d routes" % (done, len(recs)))
